@@ -7,17 +7,18 @@ from runner import Case
 
 THEOREMS = ["C07.copy_fresh", "C07.sep_step", "C07.sep_run", "C07.no_alias_after_copy", "C07.clone_frame",
             "C07.prune_frame", "C07.get_subtree_frame", "C07.mixed_history_frame", "C07.mixed_history_after_copy"]
-RULE = ("for every monitored function (11 exporters/printers incl. tree_to_dot and tree_to_mermaid, Node.show/hshow, 6 iterators, "
-        "14 search functions, clone_tree, node.copy(), copy.deepcopy, get_subtree, prune_tree, get_tree_diff on either argument, "
-        "copy_nodes_from_tree_to_tree and copy_and_replace_nodes_from_tree_to_tree on the source tree): a Node tree (all shapes "
+RULE = ("for every monitored function (7 exporters incl. tree_to_dot and tree_to_mermaid, print/hprint/yield/hyield_tree, Node.show/hshow, 6 iterators, "
+        "inorder_iter on BinaryNode trees, 14 search functions, clone_tree, node.copy(), copy.deepcopy, get_subtree, prune_tree, get_tree_diff on either argument, "
+        "copy_nodes_from_tree_to_tree and copy_and_replace_nodes_from_tree_to_tree on the source tree; by the model-free oracle only also "
+        "dag_iterator, the four DAG exporters and DAGNode.copy()/deepcopy on random DAGs of 2-8 nodes): a Node tree (all shapes "
         "<=4 nodes for the modelled copy functions, random shapes up to 25 nodes, depth<=10, fan-out<=8, repeated and "
         "suffix-related names, int/str/None/bool attributes), a start node (root or inner), random options, then a "
         "history of 1-10 mutations (re-parent, detach, del children, set attribute, rename) interleaved on the input and "
         "on the returned tree. Compared with the Model-A store: every cell (parent, ordered children, name, public "
         "attributes) of the input and of the returned component after the history, cross links shown explicitly. "
         "A case is non-trivial when the tree has >=3 nodes and the history has an operation; distinct = distinct lines")
-EXHAUSTIVE = {"quick": "node.copy(), clone_tree, get_subtree, prune_tree(max_depth) on every ordered shape with <=4 nodes from every start node (histories random)",
-              "thorough": "node.copy(), clone_tree, get_subtree, prune_tree(max_depth) on every ordered shape with <=5 nodes from every start node (histories random)"}
+EXHAUSTIVE = {"quick": "node.copy(), clone_tree, get_subtree from every start node and prune_tree(max_depth) from the root, on every ordered shape with <=4 nodes (options and histories random)",
+              "thorough": "node.copy(), clone_tree, get_subtree from every start node and prune_tree(max_depth) from the root, on every ordered shape with <=5 nodes (options and histories random)"}
 MODELLED = ["Python objects are store ids; copy.deepcopy copies the whole component reachable through parent and children (modelled as a mirror image of the store at fresh ids)",
             "the pure readers (exporters, printers, iterators, searches, get_tree_diff, the source side of copy_*_from_tree_to_tree) are the identity on the store: that they do not mutate is NOT proved, it is what this monitor checks on every case",
             "generators are driven to exhaustion; printing goes to a captured stdout",
@@ -37,6 +38,9 @@ READERS = ["tree_to_dict", "tree_to_nested_dict", "tree_to_dataframe", "tree_to_
            "get_tree_diff_1", "get_tree_diff_2", "copy_nodes_from_tree_to_tree", "copy_and_replace_nodes_from_tree_to_tree"]
 REFUSED = __import__("collections").Counter()   # readers that refused their arguments (diagnostics only)
 KIND = {r: "reader" for r in READERS}
+DAG_FNS = ["dag_iterator", "dag_to_list", "dag_to_dict", "dag_to_dataframe", "dag_to_dot", "dag_copy", "dag_deepcopy"]
+KIND.update({f: "dag" for f in DAG_FNS})
+KIND["inorder_iter"] = "reader"
 KIND.update({"copy": "copy", "deepcopy": "copy", "clone_tree": "clone", "get_subtree": "subtree", "prune_tree": "prune"})
 
 
@@ -119,6 +123,8 @@ def enc_hist(ops):
 def _line(d):
     kind = KIND[d["fn"]]
     o = d["opts"]
+    if kind == "dag":
+        return f"fn=dag name={d['fn']} start={d['start']} n={o['n']} edges={';'.join('%d>%d' % tuple(e) for e in o['edges']) or '-'} hist={enc_hist(d['hist'])}"
     head = f"fn={kind} name={d['fn']} start={d['start']} tsep={hx(d['tsep'])}"
     if kind == "subtree":
         head += f" q={hx(o['q'])} md={o['md']}"
@@ -263,7 +269,34 @@ def gen(rng: random.Random, tier: str):
             start = 0 if (fn.startswith(("get_tree_diff", "copy_")) or rng.random() < 0.6) else rng.randrange(size)
             cases.append(mk(fn, spec, start, "/", opts_for(fn, rng, spec, start, "/"), rand_hist(rng, size),
                             ("random", "start=root" if start == 0 else "start=inner")))
+    # inorder_iter needs a BinaryNode tree; the follow-up history only changes attributes / names
+    for _ in range(nr):
+        size = rng.randint(1, 12)
+        spec = label(bshape(rng, size), rng)
+        start = 0 if rng.random() < 0.6 else rng.randrange(size)
+        hist = [op for op in rand_hist(rng, size, sides=("o",)) if op[1] in ("A", "N")]
+        cases.append(mk("inorder_iter", spec, start, "/", dict(opts_for("inorder_iter", rng, spec, start, "/"), binary=True), hist, ("random", "binary")))
+    # DAG functions: monitored by the model-free oracle only
+    for fn in DAG_FNS:
+        for _ in range(nr):
+            n = rng.randint(2, 8)
+            edges = []
+            for c in range(1, n):
+                ps = rng.sample(range(c), min(c, rng.choice([1, 1, 2, 3])))
+                edges += [[p, c] for p in sorted(ps)]
+            o = {"n": n, "edges": edges, "attrs": [rand_attrs(rng) for _ in range(n)]}
+            cases.append(mk(fn, ("d", {}, []), rng.randrange(n), "/", o, rand_hist(rng, n, sides=("r",), k=rng.randint(1, 5)), ("random", "dag", "oracle-only")))
     return cases
+
+
+def bshape(rng, size):
+    kids = [[] for _ in range(size)]
+    for v in range(1, size):
+        cands = [u for u in range(v) if len(kids[u]) < 2]
+        kids[rng.choice(cands[-3:])].append(v)
+    def b(u):
+        return [b(c) for c in kids[u]]
+    return b(0)
 
 
 def relabel_without(spec, tsep):
@@ -279,6 +312,26 @@ def nontrivial(case):
 
 
 # ---------------------------------------------------------------- real side
+def build_binary(spec):
+    from bigtree import BinaryNode
+    nodes = []
+    def go(s):
+        n = BinaryNode(s[0], uid=len(nodes), **s[1])
+        nodes.append(n)
+        kids = [go(k) for k in s[2]]
+        n.children = (kids + [None, None])[:2]
+        return n
+    return go(spec), nodes
+
+
+def build_dag(o):
+    from bigtree import DAGNode
+    nodes = [DAGNode("n%d" % i, uid=i, **o["attrs"][i]) for i in range(o["n"])]
+    for p, c in o["edges"]:
+        nodes[c].parents = list(nodes[c].parents) + [nodes[p]]
+    return nodes
+
+
 def build(spec, tsep="/", uid=True):
     from bigtree import Node
     nodes = []
@@ -299,7 +352,8 @@ def build(spec, tsep="/", uid=True):
 def preorder(n):
     out = [n]
     for c in n.children:
-        out += preorder(c)
+        if c is not None:
+            out += preorder(c)
     return out
 
 
@@ -376,6 +430,8 @@ def call(d, root, nodes):
                 list(getattr(bigtree, fn)(start, filter_condition=filt, stop_condition=stop, max_depth=md))
             elif fn in ("levelordergroup_iter", "zigzaggroup_iter"):
                 [list(g) for g in getattr(bigtree, fn)(start, filter_condition=filt, stop_condition=stop, max_depth=md)]
+            elif fn == "inorder_iter":
+                list(bigtree.inorder_iter(start, filter_condition=filt, max_depth=md))
             elif fn == "findall":
                 bigtree.findall(start, filt, max_depth=md)
             elif fn == "find":
@@ -475,7 +531,9 @@ def apply_op(op, onodes, rnodes, wrap):
 
 
 def pub_attrs(n):
-    return dict(n.describe(exclude_attributes=["name", "uid"], exclude_prefix="_"))
+    from bigtree import BinaryNode
+    skip = ["name", "uid"] + (["val"] if isinstance(n, BinaryNode) else [])   # BinaryNode.val mirrors the name
+    return dict(n.describe(exclude_attributes=skip, exclude_prefix="_"))
 
 
 def show_cells(pool, refs):
@@ -484,7 +542,7 @@ def show_cells(pool, refs):
     out = []
     for n in pool:
         par = "-" if n.parent is None else refs.get(id(n.parent), "?")
-        kids = ",".join(refs.get(id(c), "?") for c in n.children) or "-"
+        kids = ",".join(refs.get(id(c), "?") for c in n.children if c is not None) or "-"
         out.append("|".join([par, kids, hx(str(n.name)), core.enc_attrs(dict(sorted(pub_attrs(n).items())))]))
     return ";".join(out)
 
@@ -492,7 +550,7 @@ def show_cells(pool, refs):
 def run_real(d):
     """returns (error name | None, ret, onodes, rnodes(modelled) , other(unmodelled result side))"""
     from bigtree.utils.exceptions import NotFoundError
-    root, nodes = build(d["spec"], d["tsep"])
+    root, nodes = build_binary(d["spec"]) if d["opts"].get("binary") else build(d["spec"], d["tsep"])
     try:
         ret, other = call(d, root, nodes)
     except NotFoundError:
@@ -509,6 +567,8 @@ def run_real(d):
 
 def impl(case):
     d = case.data
+    if KIND[d["fn"]] == "dag":
+        return "ok dag"
     err, ret, onodes, rnodes, other = run_real(d)
     refs = {id(n): "o%d" % i for i, n in enumerate(onodes)}
     refs.update({id(n): "r%d" % j for j, n in enumerate(rnodes)})
@@ -524,22 +584,104 @@ def impl(case):
 
 # ---------------------------------------------------------------- oracle (model-free)
 def sig(pool):
-    return [(id(n), id(n.parent) if n.parent is not None else None, [id(c) for c in n.children], n.name, pub_attrs(n)) for n in pool]
+    return [(id(n), id(n.parent) if n.parent is not None else None, [id(c) if c is not None else None for c in n.children],
+             n.name, pub_attrs(n)) for n in pool]
+
+
+def dag_sig(pool):
+    return [(id(n), [id(p) for p in n.parents], [id(c) for c in n.children], n.name, pub_attrs(n)) for n in pool]
+
+
+def dag_shape(pool):
+    """object-free: per uid the parents' and children's uids in order, name, attrs"""
+    return sorted((n.get_attr("uid"), [p.get_attr("uid") for p in n.parents], [c.get_attr("uid") for c in n.children],
+                   n.name, sorted(pub_attrs(n).items(), key=str)) for n in pool)
+
+
+def dag_component(n):
+    seen, todo = {}, [n]
+    while todo:
+        x = todo.pop()
+        if id(x) in seen:
+            continue
+        seen[id(x)] = x
+        todo += list(x.parents) + list(x.children)
+    return list(seen.values())
+
+
+def oracle_dag(d):
+    import bigtree
+    o = d["opts"]
+    nodes = build_dag(o)
+    start = nodes[d["start"]]
+    before = dag_sig(nodes)
+    fn = d["fn"]
+    msgs = []
+    res = None
+    try:
+        if fn == "dag_iterator":
+            list(bigtree.dag_iterator(start))
+        elif fn == "dag_to_list":
+            bigtree.dag_to_list(start)
+        elif fn == "dag_to_dict":
+            bigtree.dag_to_dict(start, all_attrs=True)
+        elif fn == "dag_to_dataframe":
+            bigtree.dag_to_dataframe(start, all_attrs=True)
+        elif fn == "dag_to_dot":
+            bigtree.dag_to_dot(start).to_string()
+        elif fn == "dag_copy":
+            res = start.copy()
+        elif fn == "dag_deepcopy":
+            res = _copy.deepcopy(start)
+    except Exception as e:
+        if not (type(e).__module__.startswith("bigtree") or isinstance(e, ValueError)):
+            raise
+    if dag_sig(nodes) != before:
+        return [f"{fn}: the input DAG was altered by the call"]
+    if res is not None:
+        comp = dag_component(res)
+        orig = {id(n) for n in nodes}
+        if any(id(x) in orig for x in comp):
+            msgs.append(f"{fn}: the copy shares node objects with the input")
+        if dag_shape(comp) != dag_shape(dag_component(start)) or res.get_attr("uid") != d["start"]:
+            msgs.append(f"{fn}: the copy differs from the original component")
+        for op in d["hist"]:
+            x = comp[op[2] % len(comp)]
+            try:
+                if op[1] == "P":
+                    x.parents = [comp[op[3] % len(comp)]]
+                elif op[1] == "D":
+                    x.parents = []
+                elif op[1] == "X":
+                    del x.children
+                elif op[1] == "A":
+                    x.set_attrs({op[3]: op[4]})
+                elif op[1] == "N":
+                    x.name = op[3]
+            except Exception:
+                pass
+            if dag_sig(nodes) != before:
+                msgs.append(f"{fn}: mutation {op} of the copy changed the input DAG")
+                break
+    return msgs
+
 
 
 def shape_sig(n):
     """structure + labels of the subtree below n, object-free"""
-    return (n.name, pub_attrs(n), [shape_sig(c) for c in n.children])
+    return (n.name, pub_attrs(n), [shape_sig(c) if c is not None else None for c in n.children])
 
 
 def oracle(case):
     d = case.data
+    if KIND[d["fn"]] == "dag":
+        return oracle_dag(d)
     msgs = []
-    root, nodes = build(d["spec"], d["tsep"])
+    root, nodes = build_binary(d["spec"]) if d["opts"].get("binary") else build(d["spec"], d["tsep"])
     before = sig(nodes)
     shape0 = shape_sig(root)
     parent_uid = {i: (nodes[i].parent.get_attr("uid") if nodes[i].parent is not None else None) for i in range(len(nodes))}
-    child_uids = {i: [c.get_attr("uid") for c in nodes[i].children] for i in range(len(nodes))}
+    child_uids = {i: [c.get_attr("uid") for c in nodes[i].children if c is not None] for i in range(len(nodes))}
     labels = {i: (nodes[i].name, pub_attrs(nodes[i])) for i in range(len(nodes))}
     try:
         ret, other = call(d, root, nodes)
@@ -602,7 +744,7 @@ def shrink(case):
     for k in range(len(h)):
         yield mk(d["fn"], d["spec"], d["start"], d["tsep"], d["opts"], h[:k] + h[k + 1:], ())
     nodes = number(d["spec"])
-    if KIND[d["fn"]] in ("subtree", "prune"):
+    if KIND[d["fn"]] in ("subtree", "prune", "dag") or d["opts"].get("binary"):
         return
     for idx in range(len(nodes) - 1, 0, -1):
         if nodes[idx][3][2] or idx == d["start"] or idx == d["opts"].get("src"):
